@@ -8,6 +8,7 @@ import UsualProofs.C14.Inet6
 import UsualProofs.C14.Inet6rt
 import UsualProofs.C14.Libc
 import UsualProofs.C14.Fnmatch
+import UsualProofs.C14.FnSound
 /-!
 # C14 — compat replacements behave exactly like the platform or specified functions
 
@@ -19,9 +20,10 @@ keeps its length, i.e. nothing outside is touched).  Every theorem is followed b
 instantiating it on a non-trivial value.
 
 Partial (named `…_partial`, full statement in the comment next to it):
-* `fnmatch_sound_complete` is about the *reference* matcher; the single-retry loop `wfn` (mirror
-  of `wfnmatch`) is compared with it by the harness, not proved equal; with FNM_PERIOD the mirror
-  is the specification;
+* `fnmatch_sound_complete` is about the *reference* matcher.  For the loop of the code (`wfn`,
+  mirror of `wfnmatch`) soundness is proved (`fnmatch_code_sound`) and its bracket walk is proved
+  equal to the reference's (`match_class_spec`); that the single-retry loop finds EVERY match is
+  compared by the harness, not proved; with FNM_PERIOD the mirror is the specification;
 * `pton6_spec_partial`: result shape + concrete forms (and the full round trip `pton_ntop6`),
   no theorem about the complete input grammar.
 -/
@@ -498,5 +500,22 @@ example : matchClass (FnFlags.ofNat 0) (bytesOf "!a-c]x") 100 = some [120] ∧
     matchClass (FnFlags.ofNat 0) (bytesOf "[:alpha:]0]") 48 = some [] ∧
     matchClass (FnFlags.ofNat 0) (bytesOf "ab") 91 = some (bytesOf "ab") ∧
     matchClass (FnFlags.ofNat 0) (bytesOf "[.a.]]") 97 = none := by decide
+
+/-- the loop of the code itself (`wfnmatch`, mirrored by `wfn`: single retry point, `*.` rule,
+    FNM_LEADING_DIR at pattern end, `disallow_wildcard`) is SOUND for every flag set, FNM_PERIOD
+    included: whenever it reports a match, the tokenised pattern matches the subject in the
+    declarative semantics — and hence the reference matcher agrees.  (The converse, that the
+    single-retry loop finds every match, is compared by the harness on every run, not proved.) -/
+theorem fnmatch_code_sound (fl : FnFlags) (pat str : List Nat)
+    (hp : ∀ c ∈ pat, c ≠ 0) (hs : ∀ c ∈ str, c ≠ 0) (h : wfnmatch fl pat str = 0) :
+    Matches fl (tokenize fl (pat.length + 1) pat) str ∧ refFnmatch fl pat str = 0 := by
+  have hm := wfnmatch_sound fl pat str hp hs h
+  refine ⟨hm, ?_⟩
+  unfold refFnmatch
+  rw [(refMatch_iff fl _ _).mpr hm]; rfl
+
+example : Matches (FnFlags.ofNat 1) (tokenize (FnFlags.ofNat 1) 8 (bytesOf "*/[a-c]?")) (bytesOf "x/bz") :=
+  (fnmatch_code_sound (FnFlags.ofNat 1) (bytesOf "*/[a-c]?") (bytesOf "x/bz") (by decide) (by decide)
+    (by decide)).1
 
 end UsualProps.C14
